@@ -4,7 +4,7 @@ import BppProofs.Props.C14
 # C15 — tree container (src/Bpp/Graph/TreeGraphImpl.h on GlobalGraph): soundness of the cached validity
 
 Proved here, for all histories: the cached validity flag is **sound** — whenever `isValid_` is set,
-the single-visit traversal from the root (`isTree`, GlobalGraph.cpp:653) answers true on the
+the single-visit traversal from the root (`isTree`, GlobalGraph.cpp:668) answers true on the
 *current* graph — hence `isValid()` always answers what the traversal answers now, "at every
 moment and regardless of earlier queries".  Every mutating primitive of GlobalGraph ends with the
 virtual `topologyHasChanged_()`; the model (`BppModel/Tree.lean`, `T.lift`) resets the flag exactly
@@ -302,7 +302,8 @@ theorem cacheSound_step (t : T) (h : CacheSound t) (op : TOp) : CacheSound (t.st
 /-- **cache_sound**: after any history of topology edits (node creations, links, unlinks, deletions,
 add son, set father, remove son, re-root, un-root, set root, direction changes) and validity
 queries, each call succeeding or raising, a set validity flag means the traversal answers true on
-the graph as it is now -/
+the graph as it is now.  (`T.step (.rootAt n)` falls back to "no step" when the model's `rootAt` has no answer: that never
+happens on a reachable state, `rootAt_total` in `Props/C15RootAt.lean`.) -/
 theorem cache_sound (d : Bool) (ops : List TOp) : CacheSound ((T.empty d).run ops) := by
   suffices h : ∀ t, CacheSound t → CacheSound (t.run ops) from h _ (cacheSound_empty d)
   induction ops with
